@@ -1,7 +1,92 @@
-(* C13 - instance readers are total and faithful (statements only). *)
-From Crusta Require Import Model.Readers.
+(* C13 - instance readers are total and faithful.
+   Statements only; every proof is [exact] of a lemma of Proofs/ReadersProofs.v, Proofs/ApxProofs.v.
+   Vocabulary (abstract instances, rendering choices, [render_lines]): Spec/IoSpec.v.
+   The readers are the total functions [read_iccma], [read_apx] : bytes -> RdOk fw | RdErr | RdPanic
+   of Model/Readers.v ([lines] = BufRead::lines() + UTF-8 validation). *)
+From Crusta Require Import Spec.IoSpec Proofs.IoBase Proofs.ReadersProofs.
 
-Theorem C13_stub_partial : read_iccma [] = RdErr.
-Proof. reflexivity. Qed.
+(* ------------------------------------------------------------------ ICCMA'23 *)
 
-Print Assumptions C13_stub_partial.
+(* totality: the reader returns a framework or an error on every byte string *)
+Theorem C13_iccma_total : forall bytes, read_iccma bytes <> RdPanic.
+Proof. exact ReadersProofs.read_iccma_total. Qed.
+
+(* (a) faithfulness: every rendering (LF/CRLF per line, optional final newline, comment lines
+   anywhere, empty lines after the last attack, any blanks around and between tokens, + signs,
+   leading zeros, duplicate attack lines) of every abstract instance is read as that instance *)
+Theorem C13_iccma_faithful : forall f eols final_nl,
+  iccma_file_ok f -> final_ok (iccma_file_lines f) final_nl ->
+  read_iccma (render_lines (iccma_file_lines f) eols final_nl) =
+  RdOk (iccma_fw (f_n f) (file_attacks f)).
+Proof. exact ReadersProofs.iccma_faithful. Qed.
+
+(* ... and that framework has exactly the declared arguments 1..n, in order, with ids 0..n-1, and
+   exactly the declared attacks, in file order *)
+Theorem C13_iccma_framework_shape : forall n atts, (forall p, In p atts -> fst p < n /\ snd p < n) ->
+  iter_args nat (iccma_fw n atts) = numbered 0 (seq 1 n) /\
+  iter_attacks nat (iccma_fw n atts) = atts /\
+  observe (iccma_fw n atts) = (seq 1 n, atts).
+Proof. exact ReadersProofs.iccma_fw_shape. Qed.
+
+(* (c) rejection, stated on the decoded lines [lines bytes] of an arbitrary file *)
+(* invalid UTF-8 anywhere *)
+Theorem C13_iccma_rejects_invalid_utf8 : forall bytes,
+  In None (lines bytes) -> read_iccma bytes = RdErr.
+Proof. exact (fun bytes => ReadersProofs.iccma_rejects_invalid_utf8 (lines bytes) None false). Qed.
+
+(* missing preamble: nothing but comments and empty lines *)
+Theorem C13_iccma_rejects_missing_header : forall bytes,
+  Forall (fun l => is_comment l \/ l = Some []) (lines bytes) -> read_iccma bytes = RdErr.
+Proof. exact (fun bytes => ReadersProofs.iccma_rejects_missing_header (lines bytes) false). Qed.
+
+(* ill-formed preamble: the first content line is not `p af <n>` with 0 <= n <= isize::MAX *)
+Theorem C13_iccma_rejects_bad_header : forall bytes cs h rest,
+  lines bytes = cs ++ Some h :: rest -> Forall is_comment cs -> is_content h ->
+  read_preamble (split_ws h) = None -> read_iccma bytes = RdErr.
+Proof.
+  exact (fun bytes cs h rest E Hc Hh Hp =>
+           eq_trans (f_equal (fun ls => iccma_lines ls None false) E)
+                    (ReadersProofs.iccma_rejects_bad_header cs h rest false Hc Hh Hp)).
+Qed.
+
+(* after a preamble declaring n arguments, a content line that is not exactly two integers in 1..n:
+   wrong arity, index 0, index > n, not an integer, beyond isize *)
+Theorem C13_iccma_rejects_bad_attack_line : forall bytes cs h n body l,
+  lines bytes = cs ++ Some h :: body -> Forall is_comment cs -> is_content h ->
+  read_preamble (split_ws h) = Some n -> In (Some l) body -> is_content l -> bad_attack_line n l ->
+  read_iccma bytes = RdErr.
+Proof.
+  exact (fun bytes cs h n body l E Hc Hh Hp Hin Hl Hb =>
+           eq_trans (f_equal (fun ls => iccma_lines ls None false) E)
+                    (ReadersProofs.iccma_rejects_bad_attack_line cs h n body l Hc Hh Hp Hin Hl Hb)).
+Qed.
+
+(* content (anything but a comment or an empty line) after an empty line *)
+Theorem C13_iccma_rejects_content_after_blank : forall bytes pre post l,
+  lines bytes = pre ++ Some [] :: post -> In (Some l) post -> is_content l ->
+  read_iccma bytes = RdErr.
+Proof.
+  exact (fun bytes pre post l E Hin Hl =>
+           eq_trans (f_equal (fun ls => iccma_lines ls None false) E)
+                    (ReadersProofs.iccma_rejects_content_after_blank pre post l None false Hin Hl)).
+Qed.
+
+(* (d) read_arg_from_str on the framework the reader returned: Ok exactly for the decimal usize
+   k with 1 <= k <= n, and then the argument with id k-1 and label k; never a panic *)
+Theorem C13_iccma_read_arg_exact : forall n atts s, (forall p, In p atts -> fst p < n /\ snd p < n) ->
+  iccma_read_arg (iccma_fw n atts) s =
+  match parse_usize s with
+  | Some k => if (0 <? k)%N && (k <=? N.of_nat n)%N then RdOk (N.to_nat k - 1, N.to_nat k) else RdErr
+  | None => RdErr
+  end.
+Proof. exact ReadersProofs.iccma_read_arg_exact. Qed.
+
+Print Assumptions C13_iccma_total.
+Print Assumptions C13_iccma_faithful.
+Print Assumptions C13_iccma_framework_shape.
+Print Assumptions C13_iccma_rejects_invalid_utf8.
+Print Assumptions C13_iccma_rejects_missing_header.
+Print Assumptions C13_iccma_rejects_bad_header.
+Print Assumptions C13_iccma_rejects_bad_attack_line.
+Print Assumptions C13_iccma_rejects_content_after_blank.
+Print Assumptions C13_iccma_read_arg_exact.
